@@ -1,12 +1,411 @@
-//! C30 — not built yet.
-use crate::runner::{Outcome, Summary};
-use crate::Ctx;
-use serde_json::Value;
+//! C30 — type checking is per-instruction and follows the typing rules.
+//!
+//! Three relational checks on the real `type_check` (DESIGN.md section 6 C30), none of which needs the full rule
+//! table as oracle:
+//!   (1) verdict(program) = AND over its instructions of verdict(one-instruction program, same declarations)
+//!   (2) a SET-*/SHIFT-* instruction is accepted iff its expression is real-valued (`real_valued`: the rule
+//!       as the statement spells it)
+//!   (3) the verdict does not change under swapping two instructions, duplicating one, or renaming the
+//!       memory regions consistently
+//! The remaining arms of the rule table (model: TypeCheck!InstrOk) are compared as MODEL-DIVERGENCE only.
+//!
+//! replay: TLC cases {base:{decls,body}, via, decls, body, per, ok} from spec/mc/MC_TypeCheck.tla (rule table:
+//!         every single instruction; programs: bodies over a reduced alphabet and their TLC-enumerated
+//!         transformations).
+//! drive:  seeded random programs (more regions, all operators/functions, expressions up to depth 4, up to
+//!         10 instructions) recorded as reset / check / variant events for spec/trace/TypeCheckTrace.tla.
 
-pub fn replay(_ctx: &Ctx, _case: &Value) -> Outcome {
-    panic!("C30: replay not implemented")
+use crate::runner::{Outcome, Summary, Violation};
+use crate::util::{self, arr, s};
+use crate::Ctx;
+use quil_rs::program::type_check::type_check;
+use rand::seq::SliceRandom;
+use rand::Rng;
+use serde_json::{json, Value};
+use std::collections::BTreeMap;
+
+const SETSHIFT: [&str; 5] = ["SET-FREQUENCY", "SET-PHASE", "SET-SCALE", "SHIFT-FREQUENCY", "SHIFT-PHASE"];
+const INFIX: [&str; 5] = ["+", "-", "*", "/", "^"];
+const FUNCS: [&str; 5] = ["sin", "cos", "sqrt", "exp", "cis"];
+
+fn mref(m: &Value) -> String {
+    format!("{}[{}]", s(m, "name"), util::u(m, "index"))
 }
 
-pub fn drive(_ctx: &Ctx) -> Summary {
-    panic!("C30: drive not implemented")
+fn operand(o: &Value) -> String {
+    match s(o, "t").as_str() {
+        "int" | "real" => s(o, "v"),
+        "mref" => mref(&o["m"]),
+        other => panic!("unknown operand tag {other}"),
+    }
+}
+
+/// Quil text of an abstract expression.  `salt` only picks the spelling of operators / functions when the
+/// model leaves them generic ("+", "sin").
+fn expr_text(e: &Value, salt: usize) -> String {
+    match s(e, "t").as_str() {
+        "num" => {
+            let (re, im) = (s(e, "re"), s(e, "im"));
+            if im == "0" {
+                re
+            } else if re == "0" {
+                format!("{im}i")
+            } else {
+                format!("({re}+{im}i)")
+            }
+        }
+        "pi" => "pi".to_string(),
+        "var" => format!("%{}", s(e, "v")),
+        "addr" => mref(&e["m"]),
+        "neg" => format!("-({})", expr_text(&e["e"], salt + 1)),
+        "pos" => format!("+({})", expr_text(&e["e"], salt + 1)),
+        "fn" => {
+            let f = s(e, "f");
+            let f = if f == "sin" { FUNCS[salt % FUNCS.len()].to_string() } else { f };
+            format!("{f}({})", expr_text(&e["e"], salt + 1))
+        }
+        "inf" => {
+            let op = s(e, "op");
+            let op = if op == "+" { INFIX[salt % INFIX.len()].to_string() } else { op };
+            format!("({}){op}({})", expr_text(&e["l"], salt + 1), expr_text(&e["r"], salt + 2))
+        }
+        other => panic!("unknown expression tag {other}"),
+    }
+}
+
+fn instr_text(i: &Value, salt: usize) -> String {
+    let pick = |ops: &[&str]| ops[salt % ops.len()].to_string();
+    match s(i, "k").as_str() {
+        "SetShift" => format!(
+            "{} 0 \"rf\" {}",
+            i.get("kind").and_then(|k| k.as_str()).unwrap_or(SETSHIFT[salt % 5]),
+            expr_text(&i["e"], salt)
+        ),
+        "Arith" => format!("{} {} {}", i.get("op").and_then(|o| o.as_str()).map(|x| x.to_string()).unwrap_or_else(|| pick(&["ADD", "SUB", "MUL", "DIV"])), mref(&i["dst"]), operand(&i["src"])),
+        "Move" => format!("MOVE {} {}", mref(&i["dst"]), operand(&i["src"])),
+        "Logic" => format!("{} {} {}", i.get("op").and_then(|o| o.as_str()).map(|x| x.to_string()).unwrap_or_else(|| pick(&["AND", "IOR", "XOR"])), mref(&i["dst"]), operand(&i["src"])),
+        "Unary" => format!("{} {}", s(i, "op"), mref(&i["operand"])),
+        "Compare" => format!("{} {} {} {}", i.get("op").and_then(|o| o.as_str()).map(|x| x.to_string()).unwrap_or_else(|| pick(&["EQ", "GT", "GE", "LT", "LE"])), mref(&i["dst"]), mref(&i["lhs"]), operand(&i["rhs"])),
+        "Exchange" => format!("EXCHANGE {} {}", mref(&i["left"]), mref(&i["right"])),
+        "Load" => format!("LOAD {} {} {}", mref(&i["dst"]), s(i, "source"), mref(&i["offset"])),
+        "Store" => format!("STORE {} {} {}", s(i, "destination"), mref(&i["offset"]), operand(&i["src"])),
+        "Convert" => format!("CONVERT {} {}", mref(&i["dst"]), mref(&i["src"])),
+        "Other" => s(i, "text"),
+        other => panic!("unknown instruction kind {other}"),
+    }
+}
+
+fn program_text(decls: &[Value], body: &[Value], salt: usize) -> String {
+    let mut t = String::new();
+    for d in decls {
+        t.push_str(&format!("DECLARE {} {}[2]\n", s(d, "name"), s(d, "ty")));
+    }
+    for (pos, i) in body.iter().enumerate() {
+        t.push_str(&instr_text(i, salt + pos));
+        t.push('\n');
+    }
+    t
+}
+
+/// the real verdict
+fn accepts(decls: &[Value], body: &[Value], salt: usize) -> bool {
+    let p = util::program(&program_text(decls, body, salt));
+    if p.body_instructions().count() != body.len() {
+        panic!("harness: body has {} instructions, parsed {}", body.len(), p.body_instructions().count());
+    }
+    type_check(&p).is_ok()
+}
+
+/// The statement's rule: declared REAL memory, real numbers or pi, combined by operators and functions,
+/// no variables, at any depth.
+pub fn real_valued(decls: &[Value], e: &Value) -> bool {
+    match s(e, "t").as_str() {
+        "addr" => decls.iter().any(|d| d["name"] == e["m"]["name"] && d["ty"] == "REAL"),
+        "num" => s(e, "im") == "0",
+        "pi" => true,
+        "var" => false,
+        "neg" | "pos" | "fn" => real_valued(decls, &e["e"]),
+        "inf" => real_valued(decls, &e["l"]) && real_valued(decls, &e["r"]),
+        other => panic!("unknown expression tag {other}"),
+    }
+}
+
+fn is_setshift(i: &Value) -> bool {
+    i["k"] == "SetShift"
+}
+
+fn depth(e: &Value) -> usize {
+    match e["t"].as_str().unwrap_or("") {
+        "neg" | "pos" | "fn" => 1 + depth(&e["e"]),
+        "inf" => 1 + depth(&e["l"]).max(depth(&e["r"])),
+        _ => 0,
+    }
+}
+
+fn nontrivial(body: &[Value]) -> bool {
+    body.len() >= 2 || body.iter().any(|i| i.get("e").map(|e| depth(e) >= 1).unwrap_or(false))
+}
+
+struct Real {
+    ok: bool,
+    per: Vec<bool>,
+}
+
+fn run_real(decls: &[Value], body: &[Value], salt: usize) -> Real {
+    Real {
+        ok: accepts(decls, body, salt),
+        per: body.iter().enumerate().map(|(pos, i)| accepts(decls, std::slice::from_ref(i), salt + pos)).collect(),
+    }
+}
+
+/// checks (1) and (2) on one program; returns false if a violation was recorded
+fn check_12(o: &mut Outcome, decls: &[Value], body: &[Value], real: &Real, what: &str) -> bool {
+    let mut fine = true;
+    if real.ok != real.per.iter().all(|x| *x) {
+        o.violate(
+            Violation::new("per-instruction decomposition", json!({"and_of_singletons": real.per.iter().all(|x| *x)}), json!({"program": real.ok, "singletons": real.per}))
+                .note(format!("{what}: {}", program_text(decls, body, 0))),
+        );
+        fine = false;
+    }
+    for (m, i) in body.iter().enumerate() {
+        if is_setshift(i) {
+            let want = real_valued(decls, &i["e"]);
+            if real.per[m] != want {
+                o.violate(
+                    Violation::new("SET/SHIFT real-valuedness", json!(want), json!(real.per[m]))
+                        .note(format!("{what}: {}", program_text(decls, std::slice::from_ref(i), m))),
+                );
+                fine = false;
+            }
+        }
+    }
+    fine
+}
+
+pub fn replay(_ctx: &Ctx, case: &Value) -> Outcome {
+    if let Some(h) = case.get("history") {
+        return replay_history(h.as_array().expect("history"));
+    }
+    let decls = arr(case, "decls");
+    let body = arr(case, "body");
+    let via = s(case, "via");
+    let mut o = Outcome::ok(nontrivial(body));
+    // a one-instruction SET/SHIFT case is run under all five instruction kinds, everything else under two salts
+    let salts: Vec<usize> = if body.len() == 1 && is_setshift(&body[0]) { (0..5).collect() } else { vec![0, 3] };
+    for salt in salts {
+        let real = run_real(decls, body, salt);
+        o.sub_evaluations += 1;
+        let mut fine = check_12(&mut o, decls, body, &real, &format!("salt {salt}"));
+        if via != "none" {
+            let base = &case["base"];
+            let base_ok = accepts(arr(base, "decls"), arr(base, "body"), salt);
+            if base_ok != real.ok {
+                o.violate(
+                    Violation::new(&format!("invariance under {via}"), json!(base_ok), json!(real.ok)).note(format!(
+                        "salt {salt}: base\n{}variant\n{}",
+                        program_text(arr(base, "decls"), arr(base, "body"), salt),
+                        program_text(decls, body, salt)
+                    )),
+                );
+                fine = false;
+            }
+        }
+        if fine {
+            // the rule table itself: divergence only
+            let per: Vec<bool> = arr(case, "per").iter().map(|x| x.as_bool().unwrap()).collect();
+            for (m, i) in body.iter().enumerate() {
+                if per[m] != real.per[m] {
+                    o.diverge(format!("rule table: model {} / code {} for {}", per[m], real.per[m], instr_text(i, salt + m)));
+                }
+            }
+            if case["ok"].as_bool() != Some(real.ok) && per == real.per {
+                o.diverge(format!("program verdict: model {} / code {}", case["ok"], real.ok));
+            }
+        }
+    }
+    o
+}
+
+// ------------------------------------------------------------------------------------- transformations
+
+fn swap_at(body: &[Value], i: usize, j: usize) -> Vec<Value> {
+    let mut b = body.to_vec();
+    b.swap(i, j);
+    b
+}
+fn dup_at(body: &[Value], i: usize) -> Vec<Value> {
+    let mut b = body.to_vec();
+    b.insert(i + 1, body[i].clone());
+    b
+}
+fn ren(map: &BTreeMap<String, String>, name: &str) -> String {
+    map.get(name).cloned().unwrap_or_else(|| name.to_string())
+}
+/// rename every region name in a JSON value: fields "name" of memory references and the bare names of LOAD/STORE
+fn rename_value(map: &BTreeMap<String, String>, v: &Value) -> Value {
+    match v {
+        Value::Object(o) => {
+            let mut out = serde_json::Map::new();
+            for (k, x) in o {
+                let is_name = (k == "name" && o.contains_key("index")) || k == "source" || k == "destination" || (k == "name" && o.contains_key("ty"));
+                if is_name {
+                    out.insert(k.clone(), json!(ren(map, x.as_str().unwrap())));
+                } else {
+                    out.insert(k.clone(), rename_value(map, x));
+                }
+            }
+            Value::Object(out)
+        }
+        Value::Array(a) => Value::Array(a.iter().map(|x| rename_value(map, x)).collect()),
+        other => other.clone(),
+    }
+}
+
+fn replay_history(h: &[Value]) -> Outcome {
+    // re-run a recorded history: checks (1), (2) on the base program, (3) on its recorded variants
+    let decls = arr(&h[0], "decls").clone();
+    let body = arr(&h[0], "body").clone();
+    let mut o = Outcome::ok(nontrivial(&body));
+    let real = run_real(&decls, &body, 0);
+    check_12(&mut o, &decls, &body, &real, "recorded program");
+    for ev in h.iter().filter(|e| e["ev"] == "variant") {
+        let (vd, vb) = variant_of(&decls, &body, ev);
+        let ok = accepts(&vd, &vb, 0);
+        if ok != real.ok {
+            o.violate(Violation::new(&format!("invariance under {}", s(ev, "via")), json!(real.ok), json!(ok)).note(program_text(&vd, &vb, 0)));
+        }
+    }
+    o
+}
+
+fn variant_of(decls: &[Value], body: &[Value], ev: &Value) -> (Vec<Value>, Vec<Value>) {
+    match s(ev, "via").as_str() {
+        "swap" => (decls.to_vec(), swap_at(body, util::u(ev, "i") as usize - 1, util::u(ev, "j") as usize - 1)),
+        "dup" => (decls.to_vec(), dup_at(body, util::u(ev, "i") as usize - 1)),
+        "rename" => {
+            let map: BTreeMap<String, String> = arr(ev, "pairs").iter().map(|p| (s(p, "from"), s(p, "to"))).collect();
+            (
+                decls.iter().map(|d| rename_value(&map, d)).collect(),
+                body.iter().map(|i| rename_value(&map, i)).collect(),
+            )
+        }
+        other => panic!("unknown transformation {other}"),
+    }
+}
+
+// ------------------------------------------------------------------------------------------- drive
+
+const NAMES: [&str; 7] = ["r", "n", "b", "o", "theta", "count", "x_1"];
+const TYPES: [&str; 4] = ["REAL", "INTEGER", "BIT", "OCTET"];
+
+fn pk<'a>(r: &mut (impl Rng + ?Sized), xs: &[&'a str]) -> &'a str {
+    xs[r.gen_range(0..xs.len())]
+}
+
+fn random_expr(r: &mut impl Rng, names: &[&str], d: usize) -> Value {
+    let leaf = d == 0 || r.gen_bool(0.3);
+    if leaf {
+        match r.gen_range(0..10) {
+            0..=3 => json!({"t": "addr", "m": {"name": names.choose(r).unwrap(), "index": r.gen_range(0..2)}}),
+            4..=5 => json!({"t": "num", "re": pk(r, &["1.5", "2", "0.25"]), "im": "0"}),
+            6 => json!({"t": "num", "re": pk(r, &["0", "1.0"]), "im": "2.0"}),
+            7..=8 => json!({"t": "pi"}),
+            _ => json!({"t": "var", "v": "x"}),
+        }
+    } else {
+        match r.gen_range(0..10) {
+            0..=1 => json!({"t": "neg", "e": random_expr(r, names, d - 1)}),
+            2..=4 => json!({"t": "fn", "f": FUNCS.choose(r).unwrap(), "e": random_expr(r, names, d - 1)}),
+            _ => json!({"t": "inf", "op": INFIX.choose(r).unwrap(), "l": random_expr(r, names, d - 1), "r": random_expr(r, names, d - 1)}),
+        }
+    }
+}
+
+fn random_instr(r: &mut impl Rng, names: &[&str]) -> Value {
+    let m = |r: &mut dyn rand::RngCore| json!({"name": names.choose(r).unwrap(), "index": r.gen_range(0..2)});
+    let op = |r: &mut dyn rand::RngCore, real_ok: bool| match r.gen_range(0..4) {
+        0 => json!({"t": "int", "v": pk(r, &["1", "0", "7"])}),
+        1 if real_ok => json!({"t": "real", "v": pk(r, &["2.5", "0.5"])}),
+        _ => json!({"t": "mref", "m": {"name": names.choose(r).unwrap(), "index": r.gen_range(0..2)}}),
+    };
+    match r.gen_range(0..100) {
+        0..=29 => json!({"k": "SetShift", "kind": SETSHIFT.choose(r).unwrap(), "e": random_expr(r, names, 4)}),
+        30..=39 => json!({"k": "Arith", "op": pk(r, &["ADD", "SUB", "MUL", "DIV"]), "dst": m(r), "src": op(r, true)}),
+        40..=49 => json!({"k": "Move", "dst": m(r), "src": op(r, true)}),
+        50..=57 => json!({"k": "Logic", "op": pk(r, &["AND", "IOR", "XOR"]), "dst": m(r), "src": op(r, false)}),
+        58..=63 => json!({"k": "Unary", "op": pk(r, &["NOT", "NEG"]), "operand": m(r)}),
+        64..=72 => json!({"k": "Compare", "op": pk(r, &["EQ", "GT", "GE", "LT", "LE"]), "dst": m(r), "lhs": m(r), "rhs": op(r, true)}),
+        73..=78 => json!({"k": "Exchange", "left": m(r), "right": m(r)}),
+        79..=84 => json!({"k": "Load", "dst": m(r), "source": names.choose(r).unwrap(), "offset": m(r)}),
+        85..=90 => json!({"k": "Store", "destination": names.choose(r).unwrap(), "offset": m(r), "src": op(r, true)}),
+        91..=94 => json!({"k": "Convert", "dst": m(r), "src": m(r)}),
+        _ => json!({"k": "Other", "text": pk(r, &["X 0", "NOP", "MEASURE 0 b[0]", "RX(theta[0]) 0", "PRAGMA foo"])}),
+    }
+}
+
+pub fn drive(ctx: &Ctx) -> Summary {
+    let n = ctx.arg_u64("n", 100);
+    let max_len = ctx.arg_u64("len", 10) as usize;
+    let path = ctx.arg_str("out").expect("--out");
+    let mut out = std::io::BufWriter::new(std::fs::File::create(path).expect("create trace"));
+    let mut rng = util::rng(ctx.seed, 30);
+    let mut sum = Summary::default();
+    let mut seen = std::collections::HashSet::new();
+    for h in 0..n {
+        // half of the programs are biased towards well-typed instructions so that accepted programs occur
+        let ndecl = rng.gen_range(2..=NAMES.len());
+        let declared: Vec<&str> = NAMES[..ndecl].to_vec();
+        let decls: Vec<Value> = declared
+            .iter()
+            .enumerate()
+            .map(|(k, name)| json!({"name": name, "ty": if k < 4 && rng.gen_bool(0.7) { TYPES[k] } else { TYPES.choose(&mut rng).unwrap() }}))
+            .collect();
+        let usable: Vec<&str> = if rng.gen_bool(0.6) { declared.clone() } else { NAMES.to_vec() };
+        let len = if h < 3 { h as usize } else { rng.gen_range(1..=max_len) };
+        let favour_ok = rng.gen_bool(0.5);
+        let mut body: Vec<Value> = vec![];
+        while body.len() < len {
+            let i = random_instr(&mut rng, &usable);
+            if favour_ok && !accepts(&decls, std::slice::from_ref(&i), 0) && rng.gen_bool(0.85) {
+                continue;
+            }
+            body.push(i);
+        }
+        let real = run_real(&decls, &body, 0);
+        util::emit(&mut out, &json!({"ev": "reset", "decls": decls, "body": body}));
+        util::emit(&mut out, &json!({"ev": "check", "ok": real.ok, "per": real.per}));
+        let mut o = Outcome::ok(nontrivial(&body));
+        o.count_n("events", 2);
+        // transformations: (3)
+        let mut variants: Vec<Value> = vec![];
+        if body.len() >= 2 {
+            let i = rng.gen_range(0..body.len() - 1);
+            let j = rng.gen_range(i + 1..body.len());
+            variants.push(json!({"ev": "variant", "via": "swap", "i": i + 1, "j": j + 1}));
+        }
+        if !body.is_empty() {
+            variants.push(json!({"ev": "variant", "via": "dup", "i": rng.gen_range(0..body.len()) + 1}));
+            // a random permutation of all names that occur (declared or not), plus one fresh name
+            let mut from: Vec<&str> = NAMES.to_vec();
+            from.push("fresh");
+            let mut to = from.clone();
+            to.shuffle(&mut rng);
+            let pairs: Vec<Value> = from.iter().zip(&to).filter(|(a, b)| a != b).map(|(a, b)| json!({"from": a, "to": b})).collect();
+            variants.push(json!({"ev": "variant", "via": "rename", "pairs": pairs}));
+        }
+        for mut ev in variants {
+            let (vd, vb) = variant_of(&decls, &body, &ev);
+            ev["ok"] = json!(accepts(&vd, &vb, 0));
+            util::emit(&mut out, &ev);
+            o.count("events");
+        }
+        if real.ok {
+            o.count("accepted_programs");
+        }
+        let case = json!({"decls": decls, "body": body});
+        let distinct = seen.insert(case.to_string());
+        sum.absorb(&case, &o, distinct);
+    }
+    sum
 }
